@@ -331,27 +331,73 @@ def r3_cache(chk, prog):
                   is_meta_origin(ctx, lookups, ("version",)), "cache:delegated")
 
 
+def _stmt_upvars(ctx, s_):
+    out = set()
+    if s_.place.local == 1 and s_.place.proj:
+        out |= set(o for o in ctx.origins.of_place(s_.place) if o.kind == "upvar")
+    for op_ in (s_.rv.ops or []):
+        if not op_.is_const and op_.place is not None:
+            out |= set(o for o in ctx.origins.of_operand(op_) if o.kind == "upvar")
+    return out
+
+
 def r4_adapters(chk, prog):
-    # max_size_adapter: a chunk is passed on only on the edge size <= max_size, and size counts every Ok chunk
+    # max_size_adapter: a chunk is passed on only on the edge size <= max_size, and size counts every Ok chunk.
+    # Two accountings are accepted: (A) a running total starting at 0 compared with the bound,
+    # (B) a remaining budget starting at the bound, compared with the length of the chunk.
     found = False
     for b in [b for b in prog.bodies.values() if b.path.startswith("tough::io::max_size_adapter::{closure")]:
         ctx = ctx_of(prog, b.path)
-        is_size = lambda og: bool(og) and all(o.kind == "upvar" and o.key[1] == "size" for o in og)
-        is_max = lambda og: bool(og) and all(o.kind == "upvar" and o.key[1] == "max_size" for o in og)
+        roles = {}
+        for o in set(o for blk in b.blocks for s_ in blk.stmts if s_.k == "assign" for o in _stmt_upvars(ctx, s_)) | \
+                set(o for (bb, op, a, bop, tr, sp) in ctx.comparisons() for x in (a, bop) for o in ctx.origins.of_operand(x) if o.kind == "upvar"):
+            pctx, src = upvar_source(prog, ctx, o.key[0])
+            if not src:
+                continue
+            if all(x.kind == "param" and x.key[1] == "max_size" and not x.fields for x in src):
+                roles[o.key[1]] = "bound"
+            elif all(x.kind == "const" and x.extra is not None and x.extra.const_int == 0 for x in src):
+                roles[o.key[1]] = "zero"
+        # a variable that is assigned in the closure is state; the bound itself is never assigned
+        assigned = set()
+        for blk in b.blocks:
+            for s_ in blk.stmts:
+                if s_.k == "assign" and s_.place.local == 1 and s_.place.proj:
+                    for o in ctx.origins.of_place(s_.place):
+                        if o.kind == "upvar":
+                            assigned.add(o.key[1])
+        total = [n for n, r in roles.items() if r == "zero" and n in assigned]
+        budget = [n for n, r in roles.items() if r == "bound" and n in assigned]
+        bound = [n for n, r in roles.items() if r == "bound" and n not in assigned]
+        is_up = lambda og, names: bool(og) and all(o.kind == "upvar" and o.key[1] in names for o in og)
+
+        def is_len(op_):
+            deep = deep_origins(ctx, op_, 6)
+            return any(is_call(o, "bytes::bytes::Bytes::len") for o in deep) and not any(o.kind == "upvar" for o in deep)
         T = []
         strict = None
+        mode = None
         for (bb, op, a, bop, tr, sp) in ctx.comparisons():
             oa, ob = ctx.origins.of_operand(a), ctx.origins.of_operand(bop)
-            if is_size(oa) and is_max(ob):
+            if total and bound and is_up(oa, total) and is_up(ob, bound):
                 edges, strict = normalise_le(op, True, tr)
-            elif is_max(oa) and is_size(ob):
+                mode = "total"
+            elif total and bound and is_up(oa, bound) and is_up(ob, total):
                 edges, strict = normalise_le(op, False, tr)
+                mode = "total"
+            elif budget and is_up(ob, budget) and is_len(a):
+                edges, strict = normalise_le(op, True, tr)
+                mode = "budget"
+            elif budget and is_up(oa, budget) and is_len(bop):
+                edges, strict = normalise_le(op, False, tr)
+                mode = "budget"
             else:
                 continue
             T.extend(edges or [])
         if not T:
             continue
         found = True
+        state = total if mode == "total" else budget
         chk.analysed_body(b)
         f = short_fn(b.path)
         # blocks that pass the incoming chunk (parameter _2) on
@@ -366,13 +412,20 @@ def r4_adapters(chk, prog):
                     if og and all(o.kind == "param" for o in og):
                         passb.append(blk.idx)
         chk.require(bool(passb), "R4", f, "pass-through-site", "unrecognised-idiom: no `return chunk` found", site_of(b.span))
-        path = ctx.cfg.witness_path(passb, T)
+        okedges = ctx.tracker.track(2).pos_edges(0)
+        starts = [e[1] for e in okedges]
+        if mode == "total":
+            path = ctx.cfg.witness_path(passb, T)
+        else:
+            # the budget test concerns Ok chunks (an Err item carries no bytes)
+            path = ctx.cfg.witness_path(passb, T, starts=starts) if okedges else [0]
         chk.require(path is None, "R4", f, "chunk-only-below-bound",
-                    "max_size_adapter passes a chunk on without the edge on which size <= max_size holds",
-                    site_of(b.span), path=ctx.describe_path(path))
+                    "max_size_adapter passes a chunk on without the edge on which the bytes received so far "
+                    "(including this chunk) <= max_size holds", site_of(b.span), path=ctx.describe_path(path),
+                    detail="accounting=%s" % mode)
         chk.require(strict == "le", "R4", f, "exact-size-accepted",
                     "max_size_adapter rejects a stream of exactly max_size bytes (strict comparison)", site_of(b.span))
-        # size := size + len(chunk) on the Ok edge of the chunk, before it is passed on
+        # total := total + len(chunk) / budget := budget - len(chunk) on the Ok edge, before the chunk is passed on
         upd = []
         for blk in b.blocks:
             if blk.cleanup:
@@ -380,19 +433,35 @@ def r4_adapters(chk, prog):
             for s in blk.stmts:
                 if s.k == "assign" and s.place.local == 1 and s.place.proj:
                     tgt = ctx.origins.of_place(s.place)
-                    if is_size(tgt):
+                    if is_up(tgt, state):
                         deep = deep_origins(ctx, s.rv.ops[0], 5) if s.rv.ops else set()
-                        adds = any((o.kind == "call" and o.key[1].endswith(("saturating_add", "checked_add", "wrapping_add")))
-                                   or (o.kind == "bin" and o.key[2].startswith("Add")) for o in deep)
+                        if mode == "total":
+                            arith = any((o.kind == "call" and o.key[1].endswith(("saturating_add", "checked_add", "wrapping_add")))
+                                        or (o.kind == "bin" and o.key[2].startswith("Add")) for o in deep)
+                        else:
+                            arith = any((o.kind == "call" and o.key[1].endswith(("saturating_sub", "checked_sub")))
+                                        or (o.kind == "bin" and o.key[2].startswith("Sub")) for o in deep)
                         has_len = any(is_call(o, "bytes::bytes::Bytes::len") for o in deep)
-                        has_size = any(o.kind == "upvar" and o.key[1] == "size" for o in deep)
-                        if adds and has_len and has_size:
+                        has_state = any(o.kind == "upvar" and o.key[1] in state for o in deep)
+                        if arith and has_len and has_state:
                             upd.append(blk.idx)
-        okedges = ctx.tracker.track(2).pos_edges(0)
-        p2 = ctx.cfg.witness_path(passb, (), starts=[e[1] for e in okedges], removed_blocks=upd) if okedges else [0]
+        p2 = ctx.cfg.witness_path(passb, (), starts=starts, removed_blocks=upd) if okedges else [0]
         chk.require(bool(upd) and p2 is None, "R4", f, "size-counts-every-chunk",
-                    "an Ok chunk can be passed on without `size += chunk.len()`", site_of(b.span),
+                    "an Ok chunk can be passed on without being counted against the bound", site_of(b.span),
                     path=ctx.describe_path(p2))
+        if mode == "budget":
+            p4 = ctx.cfg.witness_path(upd, T)
+            chk.require(p4 is None, "R4", f, "tested-before-deducted",
+                        "the chunk is deducted from the remaining budget before its length was compared with it",
+                        site_of(b.span), path=ctx.describe_path(p4))
+        if mode == "total":
+            # the test must see the total that already includes this chunk
+            tb = set(e[0] for e in T)
+            errs = ctx.tracker.track(2).neg_edges(0)
+            p3 = ctx.cfg.witness_path(list(tb), errs, removed_blocks=upd) if okedges else [0]
+            chk.require(p3 is None, "R4", f, "counted-before-tested",
+                        "the bound is tested before the current chunk has been added to the total: the chunk "
+                        "that crosses the bound is passed on", site_of(b.span), path=ctx.describe_path(p3))
     if not found:
         chk.anchor_missing("R4", "tough::io::max_size_adapter closure comparing size with max_size")
     # DigestAdapter::poll_next: end-of-stream is passed on only on digest equality
